@@ -13,6 +13,7 @@ class Inline:
     file: str
     qualname: str
     setter: bool = False
+    pass_receiver: bool = False  # receiver is an object even if it evaluates to a global name (enum members)
 
 
 @dataclass
